@@ -33,6 +33,7 @@ class World:
         self.dirs = set()
         self.events = []
         self.tokens = {}
+        self.links = set()   # product roots that are reached through a symbolic link
 
     # -- model Path
     def path(self, parts):
@@ -189,6 +190,19 @@ class World:
             return t.fields["of"]
         sc.vars["encode"] = Fn("py", impl=encode, name="encode")
         sc.vars["decode"] = Fn("py", impl=decode, name="decode")
+        # the local file system as far as the location functions may ask about it: a product root that is a local path is a
+        # directory; the roots listed in `links` are reached through a link (their real path is another string)
+        def isdir(I_, a, kw):
+            return Const(isinstance(a[0], Const) and isinstance(a[0].v, str) and a[0].v.startswith("/"))
+
+        def realpath(I_, a, kw):
+            if not (isinstance(a[0], Const) and isinstance(a[0].v, str)):
+                raise ShapeError("model os.path: argument is not a constant path")
+            return Const("/mnt/archive" + a[0].v if a[0].v in self.links else a[0].v)
+        ospath = Obj("os.path", OrderedDict(isdir=Fn("py", impl=isdir, name="os.path.isdir"), exists=Fn("py", impl=isdir, name="os.path.exists"), realpath=Fn("py", impl=realpath, name="os.path.realpath"),
+                                            abspath=Fn("py", impl=lambda I_, a, kw: a[0], name="os.path.abspath"), islink=Fn("py", impl=lambda I_, a, kw: Const(isinstance(a[0], Const) and a[0].v in self.links), name="os.path.islink")))
+        for m_ in (cach, pm):
+            I.module_scope(m_).vars["os"] = Obj("os", OrderedDict(path=ospath))
         return I, sc
 
 
